@@ -86,22 +86,24 @@ type Result struct {
 const maxCalleeStmts = 200
 
 type funcInfo struct {
-	decl  *ast.FuncDecl // in the cloned file
-	obj   *types.Func
-	file  *ast.File // cloned file holding decl
-	ok    bool      // eligible
-	why   string
-	calls map[*types.Func]bool
+	decl     *ast.FuncDecl // in the cloned file
+	obj      *types.Func
+	file     *ast.File // cloned file holding decl
+	ok       bool      // eligible
+	why      string
+	calls    map[*types.Func]bool
+	topDecls []ast.Stmt // type aliases for names shadowed further down, placed at the top of the body
 }
 
 type pkgState struct {
-	pkg   *packages.Package
-	info  *types.Info
-	files []*ast.File           // clones
-	orig  map[ast.Node]ast.Node // clone node -> original node
-	cand  map[*types.Func]*funcInfo
-	n     int // counter for fresh names
-	res   *Result
+	preDecls []ast.Stmt // declarations an expansion needs ahead of the hoisted variables
+	pkg      *packages.Package
+	info     *types.Info
+	files    []*ast.File           // clones
+	orig     map[ast.Node]ast.Node // clone node -> original node
+	cand     map[*types.Func]*funcInfo
+	n        int // counter for fresh names
+	res      *Result
 	// number of inlined call sites per callee and number of uses seen
 	inlinedSites map[*types.Func]int
 	changed      bool
